@@ -6,7 +6,10 @@ if ! git -C /repo apply --check "$patch" 2>/dev/null; then
   if git -C /repo apply --3way --check "$patch" 2>/dev/null; then echo "(3way)"; else echo "PATCH DOES NOT APPLY: $patch"; exit 8; fi
 fi
 git -C /repo apply "$patch" || exit 8
+# evidence files must describe runs on the UNCHANGED tree: keep the current one aside
+[ -f /verif/evidence/$pid.json ] && cp /verif/evidence/$pid.json /tmp/try_seed.$pid.evidence.json
 ( cd /repo && /venv/bin/python -m pytest -q -p no:cacheprovider --timeout=900 --continue-on-collection-errors 2>&1 | tail -1 )
 /verif/bin/check $pid --tier $tier "$@" > /tmp/try_seed.$pid.log 2>&1; rc=$?
 git -C /repo checkout -- . 
+[ -f /tmp/try_seed.$pid.evidence.json ] && mv /tmp/try_seed.$pid.evidence.json /verif/evidence/$pid.json
 echo "rc=$rc"; grep -c "^VIOLATION" /tmp/try_seed.$pid.log; grep "^VIOLATION\|^  harness\|HARNESS-ERROR\|^\[" /tmp/try_seed.$pid.log | head -8 | cut -c1-260
